@@ -165,6 +165,18 @@ func checkC14(c *Ctx, r *Report, tier string) {
 			if !ok || !callID(&cl.Call).is("builtin", "", "delete") || fieldOfValue(cl.Call.Args[0]) != fDatasets {
 				return
 			}
+			// a delete on the map object the field held before it was replaced is not a removal from the catalogue
+			if ld, isI := strip(cl.Call.Args[0]).(ssa.Instruction); isI {
+				stale := false
+				for _, st := range fieldStoresIn(f, fDatasets) {
+					if instrDominates(ld, st) && instrDominates(st, i) {
+						stale = true
+					}
+				}
+				if stale {
+					return
+				}
+			}
 			found = true
 			// an unwatch-like call inside a loop over the deleted dataset's partitions, all before the delete
 			var un *ssa.Call
